@@ -1,3 +1,59 @@
-(* C41 — statements (in progress) *)
+(* C41 — Connect session principal fields are extracted exactly or rejected.
+   Only statements and `exact`; the proofs are in Proofs/C41.v.
+   [extract]     : Model/Principal.v, transcription of the scan loop of ExtractSessionPrincipalWire and of
+                   the protowire functions it calls (ConsumeTag/Varint/Bytes/FieldValue, recursion budget 10000);
+   [ref_extract] : parse the whole region with the reference parser of Base/ProtoWire.v (written from the
+                   encoding specification), then read fields 6..12 declaratively (last value wins).
+   [u] is the unknown-field region of the decoded Session; [wf_bytes u] says its elements are bytes (< 256). *)
 From Coq Require Import List NArith ZArith.
 From Verif Require Import Base.Hex Base.ProtoWire Model.Principal Proofs.C41.
+Import ListNotations.
+Open Scope N_scope.
+
+(* "the Bedrock principal fields the proxy extracts equal those a reference protobuf parser reads
+   (last value wins for scalars)" — for EVERY byte string, including every malformed one. *)
+Theorem C41_agree : forall u, wf_bytes u -> extract u = ref_extract u.
+Proof. exact C41_agree_proof. Qed.
+Print Assumptions C41_agree.
+
+(* "the proposal is rejected ... when it carries a second envelope, an empty or oversized envelope, a
+   principal field with the wrong wire type, malformed field encoding, or an envelope without a 16-byte
+   nonce" — and in no other case. must_reject u =
+     malformed u || has_wrong_type u || second_envelope u || some_bad_envelope_size u || envelope_without_nonce u,
+   each clause a decidable predicate over the reference parse of u (Model/Principal.v). *)
+Theorem C41_reject_iff : forall u, wf_bytes u -> (extract u = RErr <-> must_reject u = true).
+Proof. exact C41_reject_iff_proof. Qed.
+Print Assumptions C41_reject_iff.
+
+(* "never silently downgraded to 'no principal'": (nil, nil) is returned only when no field 6..12 occurs. *)
+Theorem C41_never_downgrades : forall u, wf_bytes u -> has_field_6_12 u = true -> extract u <> ROk None.
+Proof. exact C41_never_downgrades_proof. Qed.
+Print Assumptions C41_never_downgrades.
+
+(* The fuel of the model's loops is not an observable: any fuel above the length gives the same result
+   (so [RErr] never stands for "out of fuel"). *)
+Theorem C41_fuel_irrelevant : forall u f, wf_bytes u -> (length u < f)%nat -> extract_fuel f u = extract u.
+Proof. exact C41_fuel_proof. Qed.
+Print Assumptions C41_fuel_irrelevant.
+
+(* Reading note made explicit: ConnectSessionNonce is a [16]byte that is filled only together with an
+   envelope; a proposal without envelope yields sixteen zero bytes whatever field 9 carries. *)
+Theorem C41_nonce_only_with_envelope : forall u p, wf_bytes u ->
+  extract u = ROk (Some p) -> p_envelope p = [] -> p_nonce p = zeros16.
+Proof. exact C41_nonce_only_with_envelope_proof. Qed.
+Print Assumptions C41_nonce_only_with_envelope.
+
+(* Non-vacuity: a complete v2 proposal is accepted with exactly its fields; a second envelope, a
+   varint-typed envelope, a truncation and a missing nonce are rejected; a v1 proposal has no principal. *)
+Example C41_nonvacuous_accept :
+  wf_bytes ex_full /\ has_field_6_12 ex_full = true /\ must_reject ex_full = false /\
+  extract ex_full = ROk (Some (mkP 2 [] [] [1;2;3;4;5;6;7;8;9;10;11;12;13;14;15;16] 0 0 [97; 46; 98])).
+Proof. exact ex_full_ok. Qed.
+Example C41_nonvacuous_reject :
+  must_reject (ex_full ++ [98; 1; 99]) = true /\ extract (ex_full ++ [98; 1; 99]) = RErr /\
+  must_reject (ex_full ++ [96; 1]) = true /\ extract (ex_full ++ [96; 1]) = RErr /\
+  must_reject (removelast ex_full) = true /\ extract (removelast ex_full) = RErr /\
+  must_reject [48; 2; 98; 1; 99] = true /\ extract [48; 2; 98; 1; 99] = RErr.
+Proof. exact ex_rejected. Qed.
+Example C41_nonvacuous_v1 : has_field_6_12 [40; 1; 106; 0] = false /\ extract [40; 1; 106; 0] = ROk None.
+Proof. exact ex_v1. Qed.
